@@ -240,6 +240,9 @@ func (this *Dataset) BatchInsert(ctx context.Context, items []*pb.BatchItem) (ma
 	if len(items) > maxBatchRequestSize {
 		return nil, BatchRequestTooLargerErr
 	}
+	if err := this.checkBatchItemIds(items); err != nil {
+		return nil, err
+	}
 
 	errors := make(map[uuid.UUID]error)
 	var checkedItems []*pb.BatchItem
@@ -275,6 +278,9 @@ func (this *Dataset) PartitionBatchInsert(ctx context.Context, partitionId uuid.
 	if err != nil {
 		return nil, err
 	}
+	if err := this.checkBatchItems(items); err != nil {
+		return nil, err
+	}
 
 	return partition.batchInsert(ctx, items)
 }
@@ -282,6 +288,9 @@ func (this *Dataset) PartitionBatchInsert(ctx context.Context, partitionId uuid.
 func (this *Dataset) BatchUpdate(ctx context.Context, items []*pb.BatchItem) (map[uuid.UUID]error, error) {
 	if len(items) > maxBatchRequestSize {
 		return nil, BatchRequestTooLargerErr
+	}
+	if err := this.checkBatchItemIds(items); err != nil {
+		return nil, err
 	}
 
 	errors := make(map[uuid.UUID]error)
@@ -318,6 +327,9 @@ func (this *Dataset) PartitionBatchUpdate(ctx context.Context, partitionId uuid.
 	if err != nil {
 		return nil, err
 	}
+	if err := this.checkBatchItems(items); err != nil {
+		return nil, err
+	}
 
 	return partition.batchUpdate(ctx, items)
 }
@@ -325,6 +337,9 @@ func (this *Dataset) PartitionBatchUpdate(ctx context.Context, partitionId uuid.
 func (this *Dataset) BatchRemove(ctx context.Context, items []*pb.BatchItem) (map[uuid.UUID]error, error) {
 	if len(items) > maxBatchRequestSize {
 		return nil, BatchRequestTooLargerErr
+	}
+	if err := this.checkBatchItemIds(items); err != nil {
+		return nil, err
 	}
 
 	return this.partitionsBatchRequest(
@@ -341,6 +356,9 @@ func (this *Dataset) BatchRemove(ctx context.Context, items []*pb.BatchItem) (ma
 func (this *Dataset) PartitionBatchRemove(ctx context.Context, partitionId uuid.UUID, items []*pb.BatchItem) (map[uuid.UUID]error, error) {
 	partition, err := this.getPartition(partitionId)
 	if err != nil {
+		return nil, err
+	}
+	if err := this.checkBatchItemIds(items); err != nil {
 		return nil, err
 	}
 
@@ -435,6 +453,31 @@ func (this *Dataset) getPartitionForId(id uuid.UUID) *partition {
 	defer this.partitionsMu.RUnlock()
 
 	return this.partitions[utils.UuidMod(id, uint64(this.Meta().GetPartitionCount()))]
+}
+
+// Batch items arrive straight from the wire: an id that is not a valid uuid or (for
+// inserts and updates) a vector of the wrong dimension must be rejected before the
+// items are grouped by partition or proposed to a partition's raft group.
+func (this *Dataset) checkBatchItemIds(items []*pb.BatchItem) error {
+	for _, item := range items {
+		if _, err := uuid.FromBytes(item.GetId()); err != nil {
+			return err
+		}
+	}
+	return nil
+}
+
+func (this *Dataset) checkBatchItems(items []*pb.BatchItem) error {
+	if err := this.checkBatchItemIds(items); err != nil {
+		return err
+	}
+	for _, item := range items {
+		value := math.Vector(item.GetValue())
+		if err := this.checkDimension(&value); err != nil {
+			return err
+		}
+	}
+	return nil
 }
 
 func (this *Dataset) checkDimension(value *math.Vector) error {
